@@ -188,7 +188,7 @@ int main(int argc, char** argv) {
     std::string schemaPath = a.str("schema"), typesPath = a.str("types"), inPath = a.str("in"), outPath = a.str("out");
     long long skip = a.num("skip", 0);
     g_guards = !a.has("no-guards");
-    if (schemaPath.empty() || inPath.empty() || outPath.empty()) { fprintf(stderr, "usage: c09_dtv --schema F --types F --in F --out F [--skip N]\n"); return 2; }
+    if (schemaPath.empty() || (inPath.empty() && !a.has("serve")) || outPath.empty()) { fprintf(stderr, "usage: c09_dtv --schema F --types F --in F --out F [--skip N]\n"); return 2; }
     xml_init();
     MemoryManager* mm = XMLPlatformUtils::fgMemoryManager;
     FILE* out = fopen(outPath.c_str(), skip ? "a" : "w");
@@ -251,7 +251,9 @@ int main(int argc, char** argv) {
     }
     fflush(out);
 
-    FILE* in = fopen(inPath.c_str(), "r");
+    // one batch: case file -> result file (appended), starting behind `skip` lines
+    auto run_batch = [&](const std::string& inP, FILE* out, long long skip) -> int {
+    FILE* in = fopen(inP.c_str(), "r");
     if (!in) { perror("in"); return 2; }
     char* line = nullptr;
     size_t cap = 0;
@@ -358,7 +360,33 @@ int main(int argc, char** argv) {
     }
     free(line);
     fclose(in);
+    return 0;
+    };
+    if (a.has("serve")) {
+        // persistent mode (one schema load per worker): commands "RUN\t<in>\t<out>\t<skip>\t<guards 0|1>" on stdin, "DONE" on stdout
+        fclose(out);
+        char* cmd = nullptr;
+        size_t ccap = 0;
+        ssize_t cn;
+        printf("READY\n");
+        fflush(stdout);
+        while ((cn = getline(&cmd, &ccap, stdin)) > 0) {
+            if (cmd[cn - 1] == '\n') cmd[--cn] = 0;
+            std::vector<std::string> f = split(std::string(cmd, cn));
+            if (f.size() < 5 || f[0] != "RUN") break;
+            g_guards = f[4] != "0";
+            FILE* o = fopen(f[2].c_str(), "a");
+            if (!o) { perror("out"); return 2; }
+            int rc = run_batch(f[1], o, atoll(f[3].c_str()));
+            fclose(o);
+            printf(rc ? "FAIL\n" : "DONE\n");
+            fflush(stdout);
+        }
+        fflush(nullptr);
+        _exit(0);
+    }
+    int rc = run_batch(inPath, out, skip);
     fclose(out);
     fflush(nullptr);
-    _exit(0);  // no teardown: leak checking is off and XMLPlatformUtils::Terminate is not under test here
+    _exit(rc);  // no teardown: leak checking is off and XMLPlatformUtils::Terminate is not under test here
 }
